@@ -118,11 +118,19 @@ namespace nmtools::view
             auto ashape = shape(lhs);
             auto bshape = shape(rhs);
             [[maybe_unused]] const auto [success, shape] = index::shape_concatenate(ashape,bshape,axis);
-            // TODO: use nmtools_assert macro
-            nmtools_cassert (success
-                , "unsupported concatenate, mismatched shape"
-            );
-            return decorator_t<concatenate_t,lhs_array_t,rhs_array_t,axis_t>{{lhs,rhs,axis}};
+            using view_t = decorator_t<concatenate_t,lhs_array_t,rhs_array_t,axis_t>;
+            using dst_shape_t = meta::remove_cvref_t<typename view_t::shape_type>;
+            if constexpr (meta::is_constant_index_array_v<dst_shape_t>) {
+                // shapes and axis known at compile time (already validated while resolving the type)
+                return view_t{{lhs,rhs,axis}};
+            } else {
+                // shapes or axis only known at run time: mismatching operands / an invalid axis yield Nothing
+                using return_t = nmtools_maybe<view_t>;
+                return (success
+                    ? return_t{view_t{{lhs,rhs,axis}}}
+                    : return_t{meta::Nothing}
+                );
+            }
         }
     } // concatenate
 } // namespace nmtools::view
